@@ -10,8 +10,12 @@ EXTENDS BitswapNet, Json, Integers
 CONSTANT Devs
 Trace == ndJsonDeserialize("trace.ndjson")
 VARIABLES l, dev,
-          rc      \* requests cancelled through their own context (Cancel), as opposed to their session's
-tvars == <<vars, l, dev, rc>>
+          rc,     \* requests cancelled through their own context (Cancel), as opposed to their session's
+          kA,     \* [Req -> SUBSET Block] keys of r shared with a same-session sibling cancelled while r was open
+          kF,     \* [Req -> SUBSET Block] keys of r shared with a same-session sibling cancelled before r was issued
+          hasAt   \* [Req -> [Node -> SUBSET Block]] placement when r was issued (who could answer DONT_HAVE)
+aux == <<rc, kA, kF, hasAt>>
+tvars == <<vars, l, dev, aux>>
 ASSUME TLCSet(1, 0)
 
 Ev == Trace[l]
@@ -26,7 +30,8 @@ Blank == /\ adding = [n \in Node |-> [b \in Block |-> 0]]
          /\ wl = [n \in Node |-> {}]
          /\ fresh = [n \in Node |-> FALSE]
 
-TInit == /\ l = 1 /\ dev = {} /\ rc = {}
+TInit == /\ l = 1 /\ dev = {} /\ rc = {} /\ kA = [r \in Req |-> {}] /\ kF = [r \in Req |-> {}]
+         /\ hasAt = [r \in Req |-> [n \in Node |-> {}]]
          /\ adj = [n \in Node |-> {}] /\ has = [n \in Node |-> {}]
          /\ Blank
 
@@ -43,46 +48,113 @@ TReset == /\ IsEvent("Reset")
           /\ sess' = [s \in Sess |-> NoSess]
           /\ wl' = [n \in Node |-> {}]
           /\ fresh' = [n \in Node |-> FALSE]
-          /\ rc' = {} /\ UNCHANGED dev
+          /\ rc' = {} /\ kA' = [r \in Req |-> {}] /\ kF' = [r \in Req |-> {}]
+          /\ hasAt' = [r \in Req |-> [n \in Node |-> {}]] /\ UNCHANGED dev
 
 TOpenSession == IsEvent("OpenSession") /\ Ev.s \in Sess /\ Ev.node \in Node
-                /\ OpenSession(Ev.s, Ev.node) /\ UNCHANGED <<dev, rc>>
+                /\ OpenSession(Ev.s, Ev.node) /\ UNCHANGED <<dev, aux>>
 TRequest == /\ IsEvent("Request") /\ Ev.r \in Req /\ Ev.node \in Node /\ Ev.s \in Sess \cup {0}
             /\ ToSet(Ev.keys) \subseteq Block
-            /\ Request(Ev.r, Ev.node, Ev.s, Ev.kind, Ev.keys) /\ UNCHANGED <<dev, rc>>
+            /\ Request(Ev.r, Ev.node, Ev.s, Ev.kind, Ev.keys)
+            /\ kF' = [kF EXCEPT ![Ev.r] = IF Ev.s = 0 THEN {} ELSE
+                        ToSet(Ev.keys) \cap UNION {KeySet(c) \ Got(c) : c \in {c \in rc : rq[c].s = Ev.s}}]
+            /\ hasAt' = [hasAt EXCEPT ![Ev.r] = has]
+            /\ UNCHANGED <<dev, rc, kA>>
 TDeliver == /\ IsEvent("Deliver") /\ Ev.r \in Req /\ Ev.b \in Block /\ Ev.from \in Node \cup {0}
             /\ Ev.ok = TRUE                                  \* bytes are the block's bytes (projection)
-            /\ Deliver(Ev.r, Ev.b, Ev.from) /\ UNCHANGED <<dev, rc>>
-TCancel == IsEvent("Cancel") /\ Ev.r \in Req /\ Cancel(Ev.r) /\ rc' = rc \cup {Ev.r} /\ UNCHANGED dev
-TCancelSession == IsEvent("CancelSession") /\ Ev.s \in Sess /\ CancelSession(Ev.s) /\ UNCHANGED <<dev, rc>>
+            /\ Deliver(Ev.r, Ev.b, Ev.from) /\ UNCHANGED <<dev, aux>>
+TCancel == /\ IsEvent("Cancel") /\ Ev.r \in Req /\ Cancel(Ev.r) /\ rc' = rc \cup {Ev.r}
+           /\ kA' = [r \in Req |-> IF r # Ev.r /\ Open(r) /\ rq[Ev.r].s # 0 /\ rq[r].s = rq[Ev.r].s
+                                    THEN kA[r] \cup (Awaited(Ev.r) \cap Awaited(r)) ELSE kA[r]]
+           /\ UNCHANGED <<dev, kF, hasAt>>
+TCancelSession == IsEvent("CancelSession") /\ Ev.s \in Sess /\ CancelSession(Ev.s) /\ UNCHANGED <<dev, aux>>
 TClose == /\ IsEvent("Close") /\ Ev.r \in Req
           /\ Ev.err = "" \/ rq[Ev.r].canc                    \* an error only after cancellation
-          /\ Close(Ev.r) /\ UNCHANGED <<dev, rc>>
-TAddBlock == IsEvent("AddBlock") /\ Ev.node \in Node /\ Ev.b \in Block /\ AddBlock(Ev.node, Ev.b) /\ UNCHANGED <<dev, rc>>
-TAddDone == IsEvent("AddDone") /\ Ev.node \in Node /\ Ev.b \in Block /\ AddDone(Ev.node, Ev.b) /\ UNCHANGED <<dev, rc>>
+          /\ Close(Ev.r) /\ UNCHANGED <<dev, aux>>
+TAddBlock == IsEvent("AddBlock") /\ Ev.node \in Node /\ Ev.b \in Block /\ AddBlock(Ev.node, Ev.b) /\ UNCHANGED <<dev, aux>>
+TAddDone == IsEvent("AddDone") /\ Ev.node \in Node /\ Ev.b \in Block /\ AddDone(Ev.node, Ev.b) /\ UNCHANGED <<dev, aux>>
 TSnapshot == /\ IsEvent("Snapshot") /\ Ev.node \in Node
              /\ ToSet(Ev.wl) \subseteq Block                 \* an unknown CID is projected to 0
-             /\ Snapshot(Ev.node, ToSet(Ev.wl)) /\ UNCHANGED <<dev, rc>>
-TTimeout == IsEvent("Timeout") /\ Ev.r \in Req /\ Timeout(Ev.r) /\ UNCHANGED <<dev, rc>>
+             /\ Snapshot(Ev.node, ToSet(Ev.wl)) /\ UNCHANGED <<dev, aux>>
+TTimeout == IsEvent("Timeout") /\ Ev.r \in Req /\ Timeout(Ev.r) /\ UNCHANGED <<dev, aux>>
 
-(* Open finding C37-shared-want-cancel (as built): a session keeps ONE want per key, not one per
-   GetBlocks call.  When a call is cancelled, getter.handleIncoming hands its undelivered keys to the
-   session (opCancel), which drops them from sessionWants / sessionWantSender and withdraws the session's
-   interest -- although a sibling call on the same session still awaits the same key.  The sibling then
-   never receives the block from the network.  Excused only in exactly that constellation. *)
-SharedWantCancelled(r) ==
-    /\ rq[r].s # 0
-    /\ \E c \in rc \ {r} : /\ rq[c].s = rq[r].s
-                            /\ (KeySet(c) \ Got(c)) \cap Awaited(r) # {}
-TTimeoutDev == /\ "Dev_C37_SharedWantCancelled" \in Devs
+(* ---------------------------------------------------------------------------------------------
+   Open findings (as built).  Each is one named deviation, enabled only when listed in Devs and only
+   in the constellation in which the code really misbehaves; everything else stays a violation.
+
+   Dev_C37_SharedWantCancelled   a session keeps ONE want per key, not one per GetBlocks call: when a call is
+        cancelled, getter.handleIncoming hands its undelivered keys to the session (opCancel), which drops them
+        from sessionWants / sessionWantSender and withdraws the session's interest although a sibling call on
+        the same session still awaits the same key -> the sibling never gets the block (liveness).
+   Dev_C37_RewantAfterCancel     same bookkeeping, asynchronous half: the interest is withdrawn later, by the
+        sessionWantSender goroutine; a call issued on the session right after the sibling's cancellation has
+        its fresh interest removed -> blocks for it are discarded as unwanted (liveness), and the wants the
+        sender still emits are never cancelled (leak).
+   Dev_C37_LocalBlockWantLeak    sessionWantSender.onChange uses update.from # "" to recognise an update; blocks
+        announced locally (NotifyNewBlocks, from = "") are ignored, the sender keeps the want and sends it to
+        peers after the session withdrew its interest -> the key stays on the want-list for ever.
+   Dev_C37_BroadcastAfterCancel  opBroadcast (all session peers answered DONT_HAVE) is executed by the session
+        loop without checking that the keys are still wanted; processed after the key was received/cancelled
+        it puts the key back on the want-list with nobody left to cancel it.
+   Dev_C37_LateWantAfterReceive  on receipt the session loop withdraws interest and sends CANCEL while the
+        sessionWantSender goroutine may still hold the want and send it to a newly available peer afterwards.
+   Dev_C37_WantAfterDelivery     Subscribe precedes the registration of the want (opWant); a block published
+        in between completes the call, the session registers and broadcasts the want afterwards and keeps it
+        until the session is closed. *)
+SameNodeReqs(n) == {r \in Req : rq[r].st # "none" /\ rq[r].node = n}
+\* keys the session of r was ever asked for (a temporary session serves exactly one request)
+SessKeys(r) == IF rq[r].s = 0 THEN KeySet(r)
+               ELSE UNION {KeySet(q) : q \in {q \in Req : rq[q].st # "none" /\ rq[q].s = rq[r].s}}
+\* m can have become a peer of r's session: it holds something the session asked for
+SessPeer(r, m) == m \in adj[rq[r].node] /\ SessKeys(r) \cap has[m] # {}
+MayHaveReceived(r, k) == k \in KeySet(r) /\ (k \in Got(r) \/ (rq[r].canc /\ (Reachable(rq[r].node, k) \/ k \in larr[r])))
+Senders(r, k) == {m \in adj[rq[r].node] : k \in has[m]} \cup (IF k \in larr[r] THEN {0} ELSE {})
+
+\* D: k announced locally while r was waiting for it, and the session has a peer to send the stale want to
+ExcD(n, k) == \E r \in SameNodeReqs(n) : k \in KeySet(r) /\ k \in larr[r] /\ \E m \in adj[n] : SessPeer(r, m)
+\* E: a session peer that did not hold k when r was issued (DONT_HAVE), k received or given up since
+ExcE(n, k) == \E r \in SameNodeReqs(n) : /\ k \in KeySet(r) /\ (~Open(r) \/ k \in Got(r))
+                                          /\ \E m \in adj[n] : k \notin hasAt[r][m] /\ SessPeer(r, m)
+\* C: delivered on a long-lived session that is still open, published by a local announcement or by
+\*    another session's traffic before the session had registered the want
+ExcC(n, k) == \E r \in SameNodeReqs(n) :
+                 /\ rq[r].s # 0 /\ sess[rq[r].s].st = "open" /\ k \in Got(r)
+                 /\ k \in larr[r] \/ \E q \in SameNodeReqs(n) : q # r /\ rq[q].s # rq[r].s /\ k \in KeySet(q)
+ExcF(n, k) == \E r \in SameNodeReqs(n) : k \in kF[r]
+\* B: k received (from src) while a second session peer m2 can still trigger a send
+ExcB(n, k) == \E r \in SameNodeReqs(n) : /\ MayHaveReceived(r, k)
+                                          /\ \E src \in Senders(r, k), m2 \in adj[n] : m2 # src /\ SessPeer(r, m2)
+
+Excuse(n, k) == IF "Dev_C37_LocalBlockWantLeak" \in Devs /\ ExcD(n, k) THEN "Dev_C37_LocalBlockWantLeak"
+           ELSE IF "Dev_C37_RewantAfterCancel" \in Devs /\ ExcF(n, k) THEN "Dev_C37_RewantAfterCancel"
+           ELSE IF "Dev_C37_WantAfterDelivery" \in Devs /\ ExcC(n, k) THEN "Dev_C37_WantAfterDelivery"
+           ELSE IF "Dev_C37_LateWantAfterReceive" \in Devs /\ ExcB(n, k) THEN "Dev_C37_LateWantAfterReceive"
+           ELSE IF "Dev_C37_BroadcastAfterCancel" \in Devs /\ ExcE(n, k) THEN "Dev_C37_BroadcastAfterCancel"
+           ELSE "none"
+
+\* a settled want-list with left-over keys, every one of them explained by an open finding
+TSnapshotDev == /\ Devs # {}
+                /\ IsEvent("Snapshot") /\ Ev.node \in Node /\ ToSet(Ev.wl) \subseteq Block
+                /\ LET W == ToSet(Ev.wl)  X == W \ LiveWanted(Ev.node) IN
+                     /\ X # {}
+                     /\ \A k \in X : Excuse(Ev.node, k) # "none"
+                     /\ dev' = dev \cup {Excuse(Ev.node, k) : k \in X}
+                     /\ wl' = [wl EXCEPT ![Ev.node] = W]
+                /\ fresh' = [fresh EXCEPT ![Ev.node] = FALSE]     \* no Cleanup claim for this snapshot
+                /\ UNCHANGED <<adj, has, adding, rq, delivered, larr, sess, aux>>
+
+TimeoutExcuse(r) == IF "Dev_C37_SharedWantCancelled" \in Devs /\ kA[r] \cap Awaited(r) # {} THEN "Dev_C37_SharedWantCancelled"
+               ELSE IF "Dev_C37_RewantAfterCancel" \in Devs /\ kF[r] \cap Awaited(r) # {} THEN "Dev_C37_RewantAfterCancel"
+               ELSE "none"
+TTimeoutDev == /\ Devs # {}
                /\ IsEvent("Timeout") /\ Ev.r \in Req
                /\ Open(Ev.r) /\ Obligated(Ev.r) /\ ~rq[Ev.r].canc
-               /\ SharedWantCancelled(Ev.r)
-               /\ dev' = dev \cup {"Dev_C37_SharedWantCancelled"}
-               /\ UNCHANGED <<vars, rc>>
+               /\ TimeoutExcuse(Ev.r) # "none"
+               /\ dev' = dev \cup {TimeoutExcuse(Ev.r)}
+               /\ UNCHANGED <<vars, aux>>
 
 TNext == \/ TReset \/ TOpenSession \/ TRequest \/ TDeliver \/ TCancel \/ TCancelSession
-         \/ TClose \/ TAddBlock \/ TAddDone \/ TSnapshot \/ TTimeout \/ TTimeoutDev
+         \/ TClose \/ TAddBlock \/ TAddDone \/ TSnapshot \/ TTimeout \/ TTimeoutDev \/ TSnapshotDev
 TSpec == TInit /\ [][TNext]_tvars
 
 TraceConstraint == TLCSet(1, IF l - 1 > TLCGet(1) THEN l - 1 ELSE TLCGet(1))
